@@ -190,6 +190,10 @@ func run(c *Case) *vkit.Outcome {
 		curPlanned.Store(plan[n])
 		switch plan[n] {
 		case "reject":
+			if n%2 == 0 {
+				// the same refusal, calling itself temporary: still one attempt, one report
+				return storekit.Action{Err: fmt.Errorf("store: %w", storekit.ErrInjectedTemp)}
+			}
 			return storekit.Action{Err: storekit.ErrInjected}
 		case "timeout":
 			return storekit.Action{Block: true}
